@@ -256,16 +256,17 @@ pub fn decode_bytes_from_inscription_data(mut inscription_data: &str) -> Option<
     // An empty payload ("" or a string starting with '=') has no method byte: not decodable
     match *base64_decoded.first()? {
         0x00 => {
-            // Uncompressed
-            if base64_decoded.len() > CALLDATA_LIMIT {
+            // Uncompressed: the limit applies to the payload, not to the method byte
+            if base64_decoded.len() - 1 > CALLDATA_LIMIT {
                 None
             } else {
                 Some(Bytes::from(base64_decoded[1..].to_vec()))
             }
         }
         0x01 => {
-            // Nada
-            nada::decode_with_limit(base64_decoded[1..].iter().cloned(), CALLDATA_LIMIT)
+            // Nada: decode_with_limit rejects an output of `limit` bytes or more, and a payload
+            // of exactly CALLDATA_LIMIT bytes is allowed (as in the zstd branch)
+            nada::decode_with_limit(base64_decoded[1..].iter().cloned(), CALLDATA_LIMIT + 1)
                 .ok()
                 .map(Bytes::from)
         }
